@@ -1050,9 +1050,11 @@ func ruleR54(c *Ctx) {
 			if ok {
 				return
 			}
-			// the condition node of `if idx == 0 { continue }`
+			// the condition node of `if idx == 0 { continue }` (idx the result of the comparison, or
+			// the call itself), or the result `return longestCommonPrefix(…) == 0` of a predicate
+			// that a scan uses as `if offSearchPath(…) { continue }`
 			be, ok := node.(*ast.BinaryExpr)
-			if !ok || be.Op != token.EQL || node != stmt {
+			if !ok || be.Op != token.EQL {
 				return
 			}
 			tv, has := info.Types[be.Y]
@@ -1060,28 +1062,40 @@ func ruleR54(c *Ctx) {
 				return
 			}
 			cmpWith := tv.Value.ExactString()
-			id, ok := ast.Unparen(be.X).(*ast.Ident)
-			if !ok {
-				return
+			var def ast.Expr = ast.Unparen(be.X)
+			if id, ok := def.(*ast.Ident); ok {
+				def = m.resolveLocal(u, id)
 			}
-			def := m.resolveLocal(u, id)
 			call, ok := ast.Unparen(def).(*ast.CallExpr)
 			if def == nil || !ok || m.staticCallee(call) != lcp.Obj || len(call.Args) < 2 {
 				return
 			}
-			// the true edge must skip the node (continue)
-			if len(b.Succs) != 2 {
-				return
-			}
 			skips := false
-			ast.Inspect(u.Body, func(z ast.Node) bool {
-				if is, ok := z.(*ast.IfStmt); ok && ast.Unparen(is.Cond) == ast.Expr(be) && len(is.Body.List) == 1 {
-					if br, ok := is.Body.List[0].(*ast.BranchStmt); ok && br.Tok == token.CONTINUE {
-						skips = true
-					}
+			if node == stmt {
+				// the true edge must skip the node (continue)
+				if len(b.Succs) != 2 {
+					return
 				}
-				return true
-			})
+				ast.Inspect(u.Body, func(z ast.Node) bool {
+					if is, ok := z.(*ast.IfStmt); ok && ast.Unparen(is.Cond) == ast.Expr(be) && len(is.Body.List) == 1 {
+						if br, ok := is.Body.List[0].(*ast.BranchStmt); ok && br.Tok == token.CONTINUE {
+							skips = true
+						}
+					}
+					return true
+				})
+			} else if rs, isRet := stmt.(*ast.ReturnStmt); isRet && len(rs.Results) == 1 && ast.Unparen(rs.Results[0]) == ast.Expr(be) && u.Lit == nil {
+				for _, site := range c.callSitesOf(u) {
+					ast.Inspect(site.u.Body, func(z ast.Node) bool {
+						if is, ok := z.(*ast.IfStmt); ok && ast.Unparen(is.Cond) == ast.Expr(site.call) && len(is.Body.List) == 1 {
+							if br, ok := is.Body.List[0].(*ast.BranchStmt); ok && br.Tok == token.CONTINUE {
+								skips = true
+							}
+						}
+						return true
+					})
+				}
+			}
 			if !skips {
 				return
 			}
